@@ -217,7 +217,8 @@ func judge(out *pipe.Outcome, ix *pipe.Index) pipe.Verdict {
 		if e.Op != "Reconfigure" {
 			continue
 		}
-		g, _ := strconv.Atoi(e.Arg)
+		// the argument is the generation, optionally followed by ":<remark>"
+		g, _ := strconv.Atoi(strings.SplitN(e.Arg, ":", 2)[0])
 		if e.Kind == rig.KCtl {
 			reqs[e.Call] = &request{gen: g, ctl: i, ret: -1}
 			reqAt[e.Call] = i
